@@ -47,6 +47,8 @@ type Ctx struct {
 
 	Faults map[string]int
 	Probes map[string]int
+	Tags   map[string]map[string]struct{}
+	Gauges map[string]int
 
 	fp         uint64
 	nontrivial bool
@@ -133,6 +135,27 @@ func (c *Ctx) Fault(kind string, args ...any) {
 // Probe counts a "rare condition reached" marker.
 func (c *Ctx) Probe(name string) { c.Probes[name]++ }
 
+// Tag records a member of a named coverage set (distinct members are counted per batch).
+func (c *Ctx) Tag(set, member string) {
+	if c.Tags == nil {
+		c.Tags = map[string]map[string]struct{}{}
+	}
+	if c.Tags[set] == nil {
+		c.Tags[set] = map[string]struct{}{}
+	}
+	c.Tags[set][member] = struct{}{}
+}
+
+// Gauge records a size (the batch keeps the maximum).
+func (c *Ctx) Gauge(name string, v int) {
+	if c.Gauges == nil {
+		c.Gauges = map[string]int{}
+	}
+	if v > c.Gauges[name] {
+		c.Gauges[name] = v
+	}
+}
+
 // ProbeN adds n to a probe.
 func (c *Ctx) ProbeN(name string, n int) {
 	if n != 0 {
@@ -212,6 +235,8 @@ type Outcome struct {
 	NonTrivial bool
 	Faults     map[string]int
 	Probes     map[string]int
+	Tags       map[string]map[string]struct{}
+	Gauges     map[string]int
 	Viol       *Violation
 	Sample     any
 	Plan       []uint64
@@ -284,6 +309,8 @@ func RunOnce(s *Scenario, tier string, seed uint64, planVals, schedVals []uint64
 	out.NonTrivial = c.nontrivial
 	out.Faults = c.Faults
 	out.Probes = c.Probes
+	out.Tags = c.Tags
+	out.Gauges = c.Gauges
 	out.Viol = c.viol
 	out.Sample = c.Sample
 	out.Plan = c.Plan.Rec
@@ -598,6 +625,8 @@ type Batch struct {
 	SchedFPs     []string          `json:"sched_fps"`
 	Faults       map[string]int    `json:"faults"`
 	Probes       map[string]int    `json:"probes"`
+	TagSets      map[string][]string `json:"tag_sets"`
+	Gauges       map[string]int    `json:"gauges"`
 	Samples      []any             `json:"samples"`
 	Violations   []ViolationRecord `json:"violations"`
 	KnownHits    map[string]int    `json:"known_hits"`
@@ -637,6 +666,8 @@ func RunBatch(s *Scenario, o BatchOpts) *Batch {
 		Faults: map[string]int{}, Probes: map[string]int{}, KnownHits: map[string]int{}, KnownSample: map[string]string{}}
 	fps := map[uint64]struct{}{}
 	sfps := map[uint64]struct{}{}
+	tags := map[string]map[string]struct{}{}
+	b.Gauges = map[string]int{}
 	if o.MaxViol == 0 {
 		o.MaxViol = 3
 	}
@@ -671,6 +702,21 @@ func RunBatch(s *Scenario, o BatchOpts) *Batch {
 		}
 		for k, v := range out.Probes {
 			b.Probes[k] += v
+		}
+		for set, ms := range out.Tags {
+			if tags[set] == nil {
+				tags[set] = map[string]struct{}{}
+			}
+			for m := range ms {
+				if len(tags[set]) < 20000 {
+					tags[set][m] = struct{}{}
+				}
+			}
+		}
+		for k, v := range out.Gauges {
+			if v > b.Gauges[k] {
+				b.Gauges[k] = v
+			}
 		}
 		if out.HarnessPanic != "" {
 			b.HarnessError = append(b.HarnessError, fmt.Sprintf("run %d seed %d: %s", i, seed, out.HarnessPanic))
@@ -741,6 +787,13 @@ func RunBatch(s *Scenario, o BatchOpts) *Batch {
 		b.SchedFPs = append(b.SchedFPs, fmt.Sprintf("%016x", k))
 	}
 	sort.Strings(b.SchedFPs)
+	b.TagSets = map[string][]string{}
+	for set, ms := range tags {
+		for m := range ms {
+			b.TagSets[set] = append(b.TagSets[set], m)
+		}
+		sort.Strings(b.TagSets[set])
+	}
 	b.WallS = time.Since(start).Seconds()
 	return b
 }
